@@ -1531,7 +1531,7 @@ impl Family for F13 {
         "F13 directly named soft solvable of a locked / excluded package vs another soft requirement".into()
     }
     fn len(&self) -> u64 {
-        3 * 3 * 6 * 2 * 2 * 2
+        3 * 3 * 6 * 2 * 2 * 2 * 3
     }
     fn get(&self, mut idx: u64) -> Case {
         let mut take = |n: u64| {
@@ -1545,6 +1545,9 @@ impl Family for F13 {
         let soft_p = take(2);
         let p_first = take(2) == 1;
         let root_p = take(2) == 1;
+        // an unrelated soft solvable z=1 (no dependencies, package mentioned by nobody): absent, last or
+        // in the middle of the soft list
+        let with_z = take(3);
         let mut u = Universe::default();
         let base = u.add_name("base");
         let p = u.add_name("p");
@@ -1583,6 +1586,15 @@ impl Family for F13 {
             prob.reqs.push(Req::Single(p_all));
         }
         prob.soft = if p_first { vec![sp, t1] } else { vec![t1, sp] };
+        if with_z > 0 {
+            let z = u.add_name("z");
+            let z1 = u.add_solv(z, 1);
+            if with_z == 1 {
+                prob.soft.push(z1);
+            } else {
+                prob.soft.insert(1, z1);
+            }
+        }
         Case { u, p: prob, tag: "F13".into() }
     }
 }
